@@ -167,7 +167,8 @@ def sleep_tie(chk):
             "not_translated": ["the four runner loops (sync_core.py / async_core.py)"]}
 
 
-LOOP_THEOREMS = ["call_iter_ir_correct", "execute_iter_ir_correct", "call_loop_ir_correct", "execute_loop_ir_correct"]
+LOOP_THEOREMS = ["call_iter_ir_correct", "execute_iter_ir_correct", "call_loop_ir_correct", "execute_loop_ir_correct",
+                 "source_C01_invocations", "source_C02_attempt_start", "source_C02_sleep_within_remaining"]
 
 
 def loop_tie(chk):
@@ -206,7 +207,8 @@ def loop_tie(chk):
                                "pinned by digest and their meaning is the corresponding Runner.v operation"]}
 
 
-POLICY_THEOREMS = ["call_ir_correct", "async_call_ir_correct", "execute_ir_correct", "async_execute_ir_correct", "policy_seq_ir_correct"]
+POLICY_THEOREMS = ["call_ir_correct", "async_call_ir_correct", "execute_ir_correct", "async_execute_ir_correct", "policy_seq_ir_correct",
+                   "source_C08_call_keeps_quiescent", "source_C09_one_record"]
 
 
 def policy_tie(chk):
